@@ -190,7 +190,11 @@ def ev(node, row):
             if v is False:
                 return False
             if v is not True:
-                raise RefError('AND over non-boolean')
+                # operands of other types count by their truth value (0, 0.00 and '' are false); the result is a boolean
+                if not isinstance(v, (int, D, str, datetime.date)):
+                    raise RefError('AND over an operand without a defined truth value')
+                if not v:
+                    return False
         return True
     if t is ast.Or:
         seen_null = False
@@ -201,7 +205,10 @@ def ev(node, row):
             if v is None:
                 seen_null = True
             elif v is not False:
-                raise RefError('OR over non-boolean')
+                if not isinstance(v, (int, D, str, datetime.date)):
+                    raise RefError('OR over an operand without a defined truth value')
+                if v:
+                    return True
         return None if seen_null else False
     if t is ast.Not:
         v = ev(node.operand, row)
